@@ -44,6 +44,8 @@ def seeded_table():
         missed = [k for k, v in m.get("checks_run", {}).items() if v.get("exit") != 1]
         if missed and m.get("caught_by"):
             caught += " (not by: %s)" % ", ".join(missed)
+        if m.get("recheck", {}).get("stale"):
+            caught += " (at import; the patch no longer applies to the tree since a later `fix:` commit rewrote the same lines)"
         rows.append("| %s | %s | %s | %s | %s |" % (os.path.basename(d), m.get("property", ""), short(m.get("summary", ""), 260).replace("|", "/"),
                                                      short(m.get("needs", ""), 220).replace("|", "/"), caught))
     return "\n".join(rows)
